@@ -297,6 +297,141 @@ pub fn main(args: &Args) -> ! {
         }
         rep.part("one_sided_drop_masks", json!({"K": 10, "planned": planned, "executed": res.len(), "capped": capped}));
     }
+    // E3b3: an API call that changes connection state at any moment of a transfer (key update by
+    // either side - also by the side that has nothing to send -, ping, path change notification,
+    // window changes) must not stall it
+    {
+        use crate::scen::Op;
+        let ops: Vec<(&'static str, Op)> = vec![
+            ("keyupd-server", Op::KeyUpdate(crate::sim::SERVER)),
+            ("keyupd-client", Op::KeyUpdate(crate::sim::CLIENT)),
+            ("ping-server", Op::Ping(crate::sim::SERVER)),
+            ("ping-client", Op::Ping(crate::sim::CLIENT)),
+            ("path-changed-client", Op::PathChanged(crate::sim::CLIENT)),
+            ("path-changed-server", Op::PathChanged(crate::sim::SERVER)),
+            ("recvwin-server-1500", Op::SetRecvWindow(crate::sim::SERVER, 1500)),
+            ("sendwin-client-1500", Op::SetSendWindow(crate::sim::CLIENT, 1500)),
+        ];
+        let mut tasks = vec![];
+        for cfgname in ["default", "nopace", "ackfreq"] {
+            let Some(ci) = cfgs.iter().position(|c| c.client.name == cfgname) else { continue };
+            for wl in [Wl::W6, Wl::W8, Wl::W2] {
+                if !thorough && cfgname != "default" && wl != Wl::W6 {
+                    continue;
+                }
+                for (oi, _) in ops.iter().enumerate() {
+                    for at in (6..(if thorough { 120 } else { 70 })).step_by(if thorough { 1 } else { 2 }) {
+                        tasks.push((ci, wl, oi, at as u64));
+                        if ops[oi].0.starts_with("keyupd") {
+                            // twice in a row (the second one while the first is unconfirmed)
+                            tasks.push((ci, wl, oi + 100, at as u64));
+                        }
+                    }
+                }
+            }
+        }
+        let planned = tasks.len();
+        let (res, capped) = e3(tasks, dl, |(ci, wl, oi, at)| {
+            let r = guarded(|| {
+                let mut p = std_pair_pre(base, &cfgs[*ci], *wl, ReadMode::default(), |w| w.keep_data = false);
+                let op = ops[*oi % 100].1.clone();
+                let mut script = vec![(*at, op.clone())];
+                if *oi >= 100 {
+                    script.push((*at + 3, op));
+                }
+                let done = crate::scen::drive(&mut p, &script, 60_000, Duration::from_secs(120));
+                let mut v = vec![];
+                if !done {
+                    let d = diagnose(&p);
+                    for (s, w) in completion(&p) {
+                        v.push((format!("stall-after-api-call:{s}"), format!("{w}; t={:?} {d}", p.w.t)));
+                    }
+                }
+                for (s, w) in integrity(&p) {
+                    v.push((format!("integrity:{s}"), w));
+                }
+                (p.w.trace_hash(), v)
+            });
+            r
+        });
+        rep.exhaustive &= !capped;
+        for ((ci, wl, oi, at), r) in &res {
+            rep.evaluations += 1;
+            let name = format!("{}{}", ops[*oi % 100].0, if *oi >= 100 { " x2" } else { "" });
+            let rj = json!({"check":"c02","kind":"api","cfg":cfgs[*ci].client.name,"wl":format!("{wl:?}"),"op":name,"at":at});
+            match r {
+                Err(e) => rep.violation(Violation { signature: "panic".into(), what: format!("cfg={} wl={wl:?} {name} at step {at}: panic: {e}", cfgs[*ci].client.name), replay: rj }),
+                Ok((tr, v)) => {
+                    rep.distinct.insert(*tr);
+                    if let Some((sig, what)) = v.first() {
+                        rep.violation(Violation { signature: format!("{sig}:{}", cfgs[*ci].client.name), what: format!("cfg={} wl={wl:?} {name} at step {at}: {what}", cfgs[*ci].client.name), replay: rj });
+                    }
+                }
+            }
+        }
+        rep.part("api_calls_mid_transfer", json!({"planned": planned, "executed": res.len(), "operations": ops.iter().map(|o| o.0).collect::<Vec<_>>(), "capped": capped}));
+        // ... and on a connection that has gone quiet: one side updates its keys and stays silent, then
+        // the other side (which cannot know yet) speaks with the old keys: that must be answered
+        let mut quiet = 0u64;
+        for cfgname in ["default", "ackfreq", "cid0"] {
+            let Some(ci) = cfgs.iter().position(|c| c.client.name == cfgname) else { continue };
+            for updater in [crate::sim::SERVER, crate::sim::CLIENT] {
+                for gap_ms in [1u64, 30, 400] {
+                    for twice in [false, true] {
+                        quiet += 1;
+                        rep.evaluations += 1;
+                        let r = guarded(|| {
+                            let mut p = std_pair_pre(base, &cfgs[ci], Wl::W1, ReadMode::default(), |w| w.keep_data = false);
+                            let _ = crate::scen::drive(&mut p, &[], 20_000, Duration::from_secs(60));
+                            // quiescence
+                            let mut g = 0;
+                            while g < 2000 && !p.w.net.is_empty() {
+                                g += 1;
+                                p.w.step();
+                            }
+                            let t0 = p.w.t + Duration::from_millis(300);
+                            while p.w.next_event().map_or(false, |(at, _)| at <= t0) {
+                                p.w.step();
+                            }
+                            p.w.t = p.w.t.max(t0);
+                            crate::scen::apply_op(&mut p, &Op::KeyUpdate(updater));
+                            if twice {
+                                crate::scen::apply_op(&mut p, &Op::KeyUpdate(updater));
+                            }
+                            let t1 = p.w.t + Duration::from_millis(gap_ms);
+                            while p.w.next_event().map_or(false, |(at, _)| at <= t1) {
+                                p.w.step();
+                            }
+                            p.w.t = p.w.t.max(t1);
+                            let other = 1 - updater;
+                            crate::scen::apply_op(&mut p, &Op::Ping(other));
+                            let t2 = p.w.t + Duration::from_secs(8);
+                            let mut g = 0;
+                            while g < 4000 && p.w.next_event().map_or(false, |(at, _)| at <= t2) {
+                                g += 1;
+                                p.w.step();
+                            }
+                            let ch = if other == crate::sim::CLIENT { Some(p.cch) } else { p.sch() };
+                            let pr = ch.and_then(|ch| p.w.nodes[other].conns.get(&ch).map(|s| s.conn.verif_probe()));
+                            (pr.map(|pr| (pr.in_flight_ack_eliciting, pr.pto_count)), diagnose(&p))
+                        });
+                        let who = if updater == crate::sim::SERVER { "server" } else { "client" };
+                        let rj = json!({"check":"c02","kind":"quiet-keyupdate","cfg":cfgname,"updater":who,"gap_ms":gap_ms,"twice":twice});
+                        match r {
+                            Err(e) => rep.violation(Violation { signature: "panic".into(), what: format!("quiet key update by the {who}: panic: {e}"), replay: rj }),
+                            Ok((Some((inflight, pto)), d)) if inflight > 0 || pto > 0 => rep.violation(Violation {
+                                signature: format!("ping-after-quiet-key-update-unanswered:{cfgname}"),
+                                what: format!("cfg={cfgname}: the {who} updated its keys on a quiet connection{}, {gap_ms} ms later the peer sent a PING with the keys it knows: 8 s later {inflight} ack-eliciting packets are still unacknowledged (pto_count {pto}); {d}", if twice { " twice" } else { "" }),
+                                replay: rj,
+                            }),
+                            _ => {}
+                        }
+                    }
+                }
+            }
+        }
+        rep.part("key_update_on_quiet_connection", json!({"cases": quiet}));
+    }
     // E3c: an impatient driver. Besides servicing events, the driver polls both connections every
     // `interval` of virtual time (a busy-polling event loop); rate-limited and window-limited senders
     // must make the same progress as under the exact driver
